@@ -11,7 +11,7 @@ var clientStubs = map[string]string{
 
 func init() {
 	c11 := &Property{ID: "C11", Pkgs: []string{"client/setec"}, Bounds: map[string]string{"names in the store": "2 / 3", "per-request faults": "every request may fail (nondet)"}}
-	c11.Harnesses = append(c11.Harnesses, &HarnessSpec{Name: "verifHarnessC11Refresh", Pkg: "client/setec", Stubs: clientStubs,
+	c11.Harnesses = append(c11.Harnesses, &HarnessSpec{ReplayRepeat: 40, Name: "verifHarnessC11Refresh", Pkg: "client/setec", Stubs: clientStubs,
 		Params: map[string]int{"names": 2}, ThoroughParams: map[string]int{"names": 3}, ExpectReach: []string{"end-failed", "end-ok"},
 		Desc: "one Refresh (poll + applyUpdates + cache flush) from an arbitrary store state against an arbitrary service state"})
 	c11.Harnesses = append(c11.Harnesses, &HarnessSpec{Name: "verifHarnessC11Jitter", Pkg: "client/setec", Stubs: clientStubs, Params: map[string]int{}, ExpectReach: []string{"end"}, Solver: "cvc5-int",
@@ -62,7 +62,7 @@ func clientAll() map[string]string {
 var jsonPartialNote = "the counterexample uses the JSON model's 'error with a partially filled target' outcome, which the native harness (arbitrary bytes) does not construct"
 
 func ch(name string, params, thorough map[string]int, reach []string, desc string) *HarnessSpec {
-	return &HarnessSpec{Name: name, Pkg: "client/setec", Stubs: clientAll(), Params: params, ThoroughParams: thorough, ExpectReach: reach, Desc: desc,
+	return &HarnessSpec{ReplayRepeat: 40, Name: name, Pkg: "client/setec", Stubs: clientAll(), Params: params, ThoroughParams: thorough, ExpectReach: reach, Desc: desc,
 		ModelOnlyLabels: map[string]string{"undecodable-cache-ignored-as-a-whole": jsonPartialNote, "undecodable-cache-contributes-no-names": jsonPartialNote}}
 }
 
